@@ -35,6 +35,9 @@ CATALOGUE = {
 }
 
 
+MERGE_SHAPES = ["conflict-B-then-A", "while-running", "edit-vs-delete", "independent-create", "two-docs-restart"]
+
+
 def parse_steps(s):
     out = []
     for tok in s.split():
@@ -58,9 +61,9 @@ def run(ctx):
     nsim = 2 if ctx.quick() else 14
     nbeh = 1 if ctx.quick() else 6
     names = sorted(CATALOGUE)
-    allb = behaviours(ctx, SPEC, "MC_Replication", "Beh_Replication.cfg", env={"C06_DIR": "pushAndPull"}, timeout=1800)
+    allb = behaviours(ctx, SPEC, "MC_Replication", "Beh_Replication.cfg", env={"C06_DIR": "pushAndPull", "C06_RES": "default"}, timeout=1800)
     sims = behaviours(ctx, SPEC, "MC_Replication", "Sim_Replication.cfg", num=120 if ctx.quick() else 900, depth=60,
-                      env={"C06_DIR": "pushAndPull"}, timeout=1800)
+                      env={"C06_DIR": "pushAndPull", "C06_RES": "default"}, timeout=1800)
     for proto in PROTOS:
         pb = [b for b in allb if b["proto"] == proto and useful(b["steps"])]
         ps = [b for b in sims if b["proto"] == proto and useful(b["steps"])]
@@ -72,6 +75,10 @@ def run(ctx):
             rest = [n for n in names if n not in fixed]
             for n in fixed + (rnd.sample(rest, 1) if ctx.quick() else rest):
                 behs.append(("cat:" + n, proto, d, parse_steps(CATALOGUE[n])))
+            if proto == "v4" and d != "push":
+                # custom merging resolver (the statement says "configured policy"): merge versions enter the vectors
+                for n in ["conflict-A-then-B"] + (rnd.sample(MERGE_SHAPES, 1) if ctx.quick() else MERGE_SHAPES):
+                    behs.append(("merge:" + n, proto, d, parse_steps(CATALOGUE[n]), "merge"))
             for b in pb[:nbeh]:
                 behs.append(("beh", proto, d, clean(b["steps"])))
             pb = pb[nbeh:] + pb[:nbeh]
@@ -79,12 +86,12 @@ def run(ctx):
                 behs.append(("sim", proto, d, clean(b["steps"])))
             ps = ps[nsim:] + ps[:nsim]
     ctx.cov["rule"] = ("scenario = environment-level history (edits / deletes / resurrections on either peer, Start, Wait = caught-up point, Stop, restart) "
-                       "for one of {v3, v4} x {pushAndPull, push, pull}: fixed catalogue of conflict shapes + TLC PhaseSpec behaviours (all histories of 7 steps, 1 doc) "
+                       "for one of {v3, v4} x {pushAndPull, push, pull} (default resolver; v4 pull / pushAndPull also with a custom merging resolver): fixed catalogue of conflict shapes + TLC PhaseSpec behaviours (all histories of 7 steps, 1 doc) "
                        "+ TLC simulations (14 steps, 2 docs); non-trivial = has a caught-up point after at least one replicated write")
     ctx.assumptions += ["message-level interleavings inside a running replicator are explored in the model only; on real code at phase granularity",
                         "digests / versions enter only through order comparisons: rank compression per scenario is property-preserving",
                         "one-directional replication: convergence is required for documents the environment never wrote on the target side",
-                        "default resolver only; two peers; allow_conflicts=false on both"]
+                        "default resolver, plus one custom merging resolver (v4); two peers; allow_conflicts=false on both"]
     rows = replay(ctx, behs, "main")
     verdicts(ctx, behs, rows, confirm=True)
 
@@ -121,7 +128,7 @@ def clean(steps):
 def replay(ctx, behs, tag):
     bf = os.path.join(ctx.scratch, "c06-beh-%s.json" % tag)
     tr = os.path.join(ctx.scratch, "c06-%s.ndjson" % tag)
-    write_json(bf, [{"proto": p, "dir": d, "steps": st} for (_, p, d, st) in behs])
+    write_json(bf, [{"proto": b[1], "dir": b[2], "steps": b[3], "res": resolver_of(b)} for b in behs])
     rc, out = go_test(ctx, "rest", "^TestVerif_C06_Replication$", HARNESS, env={"VERIF_BEH": bf, "VERIF_TRACE_OUT": tr}, timeout=3000)
     if rc != 0 or not os.path.exists(tr):
         raise Inconclusive("C06 harness failed:\n" + harness_failure(out))
@@ -130,6 +137,10 @@ def replay(ctx, behs, tag):
     if aborts:
         raise Inconclusive("C06 harness aborted %d scenario(s): %s" % (len(aborts), aborts[0].get("why")))
     return rows
+
+
+def resolver_of(b):
+    return b[4] if len(b) > 4 else "default"
 
 
 def split(rows):
@@ -165,13 +176,16 @@ class Conv:
                 digs.add(v["rest"]["rev"].split("-", 1)[1])
             if "ver" in v:
                 vers.add(int(v["ver"], 16))
-                for x in v.get("pv", {}).values():
+                for x in list(v.get("pv", {}).values()) + list(v.get("mv", {}).values()):
                     vers.add(int(x, 16))
             cv = v.get("rest", {}).get("cv")
             if cv:
                 vers.add(int(cv.split("@")[0], 16))
         self.dig = {x: i + 1 for i, x in enumerate(sorted(digs))}
+        self.mvers = set()
         self.ver = {x: i + 1 for i, x in enumerate(sorted(vers))}
+        if len(self.ver) > 60:
+            raise Inconclusive("more than 60 distinct versions in one scenario (Trace cfg MaxVer = 64)")
         # revision table
         self.table = {}      # (d, rev) -> [parent, body, del]
         for r in rows:
@@ -202,7 +216,7 @@ class Conv:
         return [int(g), self.dig[x]]
 
     def view(self, v):
-        absent = {"cur": [0, 0], "tree": [], "nlive": 0, "src": "", "ver": 0, "pv": [0, 0], "body": 0, "del": False}
+        absent = {"cur": [0, 0], "tree": [], "nlive": 0, "src": "", "ver": 0, "mv": [0, 0], "pv": [0, 0], "body": 0, "del": False}
         o = dict(absent)
         if v.get("st") in ("live", "deleted"):
             leaves = set(v.get("leaves", []))
@@ -212,12 +226,14 @@ class Conv:
                 o["cur"] = self.rev(v["rev"])
                 o["tree"] = sorted(self.rev(t[0]) for t in v["tree"])
             else:
-                if v.get("mv"):
-                    raise Inconclusive("merge versions present with the default resolver: %s" % v["mv"])
                 o["src"] = self.src[v["src"]]
                 o["ver"] = self.ver[int(v["ver"], 16)]
                 pv = {self.src[s]: self.ver[int(x, 16)] for s, x in v.get("pv", {}).items()}
                 o["pv"] = [pv.get("A", 0), pv.get("B", 0)]
+                mv = {self.src[s]: self.ver[int(x, 16)] for s, x in v.get("mv", {}).items()}
+                o["mv"] = [mv.get("A", 0), mv.get("B", 0)]
+                # candidates for a version generated by a merge: every value recorded for the active peer's source
+                self.mvers |= {x for x in ([o["ver"]] if o["src"] == "A" else []) + [pv.get("A", 0), mv.get("A", 0)] if x}
         elif v.get("st") == "error":
             raise Inconclusive("harness could not read a document: %s" % v.get("err"))
         if "rest" in v:
@@ -234,13 +250,8 @@ class Conv:
             o["rest"] = {"code": 0, "id": [], "body": 0, "del": False}
         return o
 
-    def lines(self, rows, idx, direction):
+    def lines(self, rows, idx, direction, resolver="default"):
         res = []
-        revs = []
-        if self.proto == "v3":
-            for (d, rid), (par, body, dl) in sorted(self.table.items()):
-                revs.append([d] + self.rev(rid) + self.rev(par) + [body, dl])
-        res.append({"a": "Reset", "beh": idx, "proto": self.proto, "dir": direction, "revs": revs})
         for r in rows[1:]:
             a = r["a"]
             if a in ("Edit", "Delete", "Resurrect"):
@@ -255,7 +266,13 @@ class Conv:
                 s = r["run"]
                 res.append({"a": "Rerun", "w": s["docs_written"], "r": s["docs_read"], "f": s["doc_write_failures"] + s["rejected_by_local"],
                             "A": [self.view(v) for v in r["views"]["A"]], "B": [self.view(v) for v in r["views"]["B"]]})
-        return res
+        revs = []
+        if self.proto == "v3":
+            for (d, rid), (par, body, dl) in sorted(self.table.items()):
+                revs.append([d] + self.rev(rid) + self.rev(par) + [body, dl])
+        # mvers: versions of the active peer's source that this scenario shows (a merge generates one of them, or an unrecorded one)
+        reset = {"a": "Reset", "beh": idx, "proto": self.proto, "dir": direction, "res": resolver, "mvers": sorted(self.mvers), "revs": revs}
+        return [reset] + res
 
 
 DEV_WHAT = {
@@ -272,7 +289,7 @@ DEV_WHAT = {
 def validate_group(ctx, behs, per, idxs, tag):
     """P (and C) validation of the scenarios idxs.
     returns (named deviations [(scenario, doc, class)], hard violations [(scenario, invariant, event, state)], #conformant)"""
-    chunks = {i: Conv(per[i], behs[i][1]).lines(per[i], i, behs[i][2]) for i in idxs}
+    chunks = {i: Conv(per[i], behs[i][1]).lines(per[i], i, behs[i][2], resolver_of(behs[i])) for i in idxs}
     tr = os.path.join(ctx.scratch, "c06-%s.ndjson" % tag)
 
     def emit(sel):
@@ -358,7 +375,7 @@ def verdicts(ctx, behs, rows, confirm, tag="v"):
             ctx.notes.append("%s failed once on %s and did not reproduce twice (not reported)" % (inv, scen(b)))
             ctx.cov["unreproduced"] = ctx.cov.get("unreproduced", 0) + 1
             continue
-        key = "%s@%s:%s:%s" % (inv, b[1], b[2], " ".join(fmt_step(s) for s in b[3]))
+        key = "%s@%s:%s%s:%s" % (inv, b[1], b[2], "" if resolver_of(b) == "default" else "+" + resolver_of(b), " ".join(fmt_step(s) for s in b[3]))
         report_violation(ctx, key, "real replication breaks %s (%s %s, scenario %s, event %s)" % (inv, b[1], b[2], b[0], off),
                          {"scenario": scen(b), "invariant": inv, "state": state, "recorded": per[bi]})
 
@@ -368,7 +385,7 @@ def fmt_step(s):
 
 
 def scen(b):
-    return {"label": b[0], "proto": b[1], "dir": b[2], "steps": " ".join(fmt_step(s) for s in b[3])}
+    return {"label": b[0], "proto": b[1], "dir": b[2], "resolver": resolver_of(b), "steps": " ".join(fmt_step(s) for s in b[3])}
 
 
 def reproduces(ctx, b, inv):
